@@ -42,7 +42,11 @@ def obligations(cx):
             for given in (True, False):
                 tag = "cpf.%s.%s" % (mode, 'given' if given else 'default')
                 fd, bind, kw = C2.cpf_bind(src, pv, mode, model, given)
-                pp_, hp, carried = segments(cx, fd, bind, C2.havoc(src), contracts=ctr, pre=C2.BASE)       # precision arbitrary (also <= 0)
+                try:
+                    pp_, hp, carried = segments(cx, fd, bind, C2.havoc(src), contracts=ctr, pre=C2.BASE)       # precision arbitrary (also <= 0)
+                except Unsupported as u:
+                    # the loop is outside the shapes the variant search understands: no variant established (not a verdict)
+                    cx.no_variant.append("%s (%s)" % (tag, str(u)[:120])); continue
                 iters = [p for p in hp if p.outcome == 'return' and isinstance(p.value, Head)]
                 heads0 = [p for p in pp_ if p.outcome == 'return' and isinstance(p.value, Head)]
                 if 'iterations' not in carried and not any(isinstance(v, T) and v.op == 'v' and v.a[1] == 'I' for p in iters for v in p.value.env.values()):
@@ -175,7 +179,7 @@ def native_checks(cx, results):
     a non-terminating input natively under a call-count watchdog"""
     if not cx.no_variant: return {}
     from ..nativeio import native
-    corpus = native(dict(cmd='corpus', prop='C10', seed=getattr(cx, 'seed', 0), n=40 if cx.tier == 'quick' else 400))
+    corpus = native(dict(cmd='corpus', prop='C10', seed=getattr(cx, 'seed', 0), n=160 if cx.tier == 'quick' else 1200))
     out = native(dict(cmd='check', prop='C10', cases=corpus), timeout=1800)
     viol = []
     for c, fails in zip(corpus, out):
